@@ -44,16 +44,33 @@ def gen_cases(tier, seed):
                         p = {"y": r.randrange(1990, 2030), "m": r.randrange(1, 13), "d": r.randrange(1, 29), "dow": r.randrange(7)}
                         cases.append({"dn": dn, "p": p, "cn": cn, "h": h, "mi": mi, "o": order, "c": conn,
                                       "ts": C.iso(r.choice(REFS))})
+    # '<clock> in the <part of day>' is a clock notation too (C06): hours 1..11, +12 for the afternoon/evening/night family
+    pods = [(w, True) for w in G.POD_PM if not w.startswith("am ")] + [(w, False) for w in G.POD_AM if not w.startswith("am ")]
+    for dn in G.DAY_FORMS:
+        for form in ("h:MM", "h uhr", "h.MM uhr"):
+            for order in ("day-clock", "clock-day"):
+                for conn in G.COMPOSE_CONN:
+                    for _ in range(max(1, per // 3)):
+                        w, pm = r.choice(pods)
+                        h12, mi = r.randrange(1, 12), (r.choice([0, 15, 30, 45]) if form != "h uhr" else 0)
+                        p = {"y": r.randrange(1990, 2030), "m": r.randrange(1, 13), "d": r.randrange(1, 29), "dow": r.randrange(7)}
+                        cases.append({"dn": dn, "p": p, "cn": "pod/" + form, "pod": w, "h12": h12, "h": h12 + 12 if pm else h12, "mi": mi, "o": order, "c": conn,
+                                      "ts": C.iso(r.choice(REFS))})
     r.shuffle(cases)
     return cases
 
 
 def run_case(case, ctx):
     ts = C.parse_ts(case["ts"])
-    fn, fl = G.CLOCK[case["cn"]]
     p = case["p"]
     day = G.DAY_FORMS[case["dn"]](p)
-    clock = fn(case["h"], case["mi"])
+    if case["cn"].startswith("pod/"):
+        fn0, fl = G.POD_CLOCK[case["cn"][4:]]
+        clock = "%s %s" % (fn0(case["h12"], case["mi"]), case["pod"])
+        fn = None
+    else:
+        fn, fl = G.CLOCK[case["cn"]]
+        clock = fn(case["h"], case["mi"])
     conn = G.COMPOSE_CONN[case["c"]]
     if case["o"] == "day-clock":
         text = day + conn + clock
@@ -112,6 +129,8 @@ def run_case(case, ctx):
 
 
 def _cfam(cn):
+    if cn.startswith("pod/"):
+        return "pod-clock"
     fl = G.CLOCK[cn][1]
     if fl.get("military"):
         return "military"
